@@ -433,3 +433,14 @@ func ZZ_C16_DateRoundtrip() {
 	zz.Assert(zz.Iff(dt2.Format().UseDashes, dashes), "date-roundtrip-notation")
 	zz.Assert(dt2.IsEqualTo(dt), "date-roundtrip-equal")
 }
+
+// ZZNewTime exposes newTime to harnesses in other packages.
+func ZZNewTime(h, m, shift int, is24 bool) (Time, error) {
+	return newTime(h, m, shift, TimeFormat{Use24HourClock: is24})
+}
+
+// ZZSymTime returns an arbitrary valid time and its offset from midnight in minutes.
+func ZZSymTime(prefix string) (Time, int) {
+	t, off, _ := symTime(prefix)
+	return t, off
+}
